@@ -148,24 +148,15 @@ func vkStep(s vkLinState, c vkCall, evict bool) []vkLinState {
 		n[c.Op.K] = c.Op.V
 		return []vkLinState{n}
 	case "evict":
-		// the eviction toll of an add: any subset of up to 2 OTHER keys, at any
-		// moment between the insert and the add's return (never the writer's own key)
+		// one unit of the eviction toll of an add: at most ONE other key, at any moment between
+		// the insert and the add's return (never the writer's own key). An add pays up to two
+		// units and they need not be simultaneous (own segment first, spill segments later).
 		out := []vkLinState{s}
-		var others []int
 		for k := range s {
 			if k != c.Op.K {
-				others = append(others, k)
-			}
-		}
-		sort.Ints(others)
-		for i := 0; i < len(others); i++ {
-			a := s.clone()
-			delete(a, others[i])
-			out = append(out, a)
-			for j := i + 1; j < len(others); j++ {
-				b := a.clone()
-				delete(b, others[j])
-				out = append(out, b)
+				a := s.clone()
+				delete(a, k)
+				out = append(out, a)
 			}
 		}
 		return out
@@ -214,10 +205,12 @@ func vkLinearizable(init vkLinState, calls0 []vkCall, final vkLinState, evict bo
 	if evict {
 		for i, c := range calls0 {
 			if c.Op.Op == "add" {
-				e := c
-				e.Op.Op = "evict"
-				after[len(calls)] = i
-				calls = append(calls, e)
+				for unit := 0; unit < 2; unit++ {
+					e := c
+					e.Op.Op = "evict"
+					after[len(calls)] = i
+					calls = append(calls, e)
+				}
 			}
 		}
 	}
